@@ -25,6 +25,8 @@ CONSTANTS
   MaxDepth,    \* history length
   OpSet,       \* enabled operation names
   TrivialT,    \* TRUE: element type is trivially default constructible (unspecified new elements)
+  AllocIds,    \* allocator instances that operations may name ({} outside C10)
+  POCCA, POCMA, POCS, AlwaysEq,   \* allocator traits of this configuration (C10)
   AEmit
 
 U == -1    \* unspecified value
@@ -32,8 +34,20 @@ U == -1    \* unspecified value
 ABasesZero  == {0}
 ABasesMixed == {-1, 0, 2}
 
-VARIABLES arr, hist
-avars == <<arr, hist>>
+VARIABLES arr,    \* values
+          alloc,  \* allocator instance of each live array (C10); 0 = default-constructed allocator
+          hist
+avars == <<arr, alloc, hist>>
+
+(* allocator instances: 1 and 2 are equal (class 1), 3 is unequal to them (class 2), 0 is the default one *)
+(* (class 0); select_on_container_copy_construction of instance a is the instance a + 100 of the same class *)
+ClsOf(a) == LET b == a % 100 IN IF b = 0 THEN 0 ELSE IF b \in {1, 2} THEN 1 ELSE 2
+EqualAl(a, b) == AlwaysEq \/ ClsOf(a) = ClsOf(b)
+Select(a) == (a % 100) + 100
+
+(* an array left in a valid but unspecified state (source of an element-wise move) *)
+Unspec == [live |-> TRUE, shape |-> <<-1>>, first |-> <<0>>, val |-> <<>>]
+IsSpec(a) == a.live /\ a.shape # <<-1>>
 
 RECURSIVE SeqsOf(_, _)
 SeqsOf(S, n) == IF n = 0 THEN {<<>>} ELSE {<<x>> \o s : x \in S, s \in SeqsOf(S, n - 1)}
@@ -98,7 +112,8 @@ WriteF(a, k, v) == [a EXCEPT !.val[k] = v]
 Op(name, s, t, x, v, w) == [op |-> name, s |-> s, t |-> t, x |-> x, v |-> v, w |-> w]
 NoX == [shape |-> <<>>, first |-> <<>>]
 
-LiveS == {s \in Slots : arr[s].live}
+LiveS == {s \in Slots : IsSpec(arr[s])}
+UnspecS == {s \in Slots : arr[s].live /\ ~IsSpec(arr[s])}
 DeadS == {s \in Slots : ~arr[s].live}
 
 (* all candidate operations of a state *)
@@ -116,7 +131,11 @@ Cands ==
   \cup {Op("self_assign", s, s, NoX, 0, NoW) : s \in LiveS}
   \cup {Op("write", s, 0, NoX, 99, NoW) : s \in {q \in LiveS : NE(arr[q]) > 0}}
   \cup {Op("write_last", s, 0, NoX, 98, NoW) : s \in {q \in LiveS : NE(arr[q]) > 1}}
-  \cup {Op("destroy", s, 0, NoX, 0, NoW) : s \in LiveS}
+  \cup {Op("destroy", s, 0, NoX, 0, NoW) : s \in LiveS \cup UnspecS}
+  \* C10: operations that name an allocator instance (carried in v)
+  \cup {Op("ctor_iota_al", s, 0, x, a, NoW) : s \in DeadS, x \in Exts, a \in AllocIds}
+  \cup {Op(nm, s, t, NoX, a, NoW) : nm \in {"ctor_copy_al", "ctor_move_al"}, s \in DeadS, t \in LiveS, a \in AllocIds}
+  \cup UNION {{Op("assign_copy", s, t, NoX, 0, NoW) : t \in LiveS} : s \in UnspecS}
   \* C06
   \cup {Op("reextent", s, 0, x, 0, NoW) : s \in LiveS, x \in Exts}
   \cup {Op("reextent_fill", s, 0, x, v, NoW) : s \in LiveS, x \in Exts, v \in {8}}
@@ -134,6 +153,8 @@ Result(o) ==   \* new value of slot o.s
     [] o.op = "ctor_ext"      -> FillArr(o.x, DefaultV)
     [] o.op = "ctor_fill"     -> FillArr(o.x, o.v)
     [] o.op = "ctor_iota"     -> IotaArr(o.x, o.v)
+    [] o.op = "ctor_iota_al"  -> IotaArr(o.x, 10)
+    [] o.op \in {"ctor_copy_al", "ctor_move_al"} -> arr[o.t]
     [] o.op \in {"ctor_view", "decay", "assign_view"} -> Src(o)
     \* a pair of iterators carries no index base for the leading dimension
     [] o.op = "ctor_range" -> ZeroLead(Src(o))
@@ -158,14 +179,38 @@ Result(o) ==   \* new value of slot o.s
     [] o.op = "assign_fill"   -> FillArr(o.x, o.v)
 
 (* effect on the source slot *)
+(* a move transfers the storage when the destination ends up with an allocator equal to the source's; *)
+(* otherwise the elements are moved one by one and the source is left valid but unspecified            *)
+MoveSteals(o) ==
+  CASE o.op = "ctor_move"    -> TRUE
+    [] o.op = "ctor_move_al" -> EqualAl(o.v, alloc[o.t])
+    [] o.op = "assign_move"  -> POCMA \/ EqualAl(alloc[o.s], alloc[o.t])
+    [] OTHER -> FALSE
 SourceAfter(o) ==
-  CASE o.op \in {"ctor_move", "assign_move"} -> EmptyArr
+  CASE o.op \in {"ctor_move", "assign_move", "ctor_move_al"} -> IF MoveSteals(o) THEN EmptyArr ELSE Unspec
     [] o.op = "swap" -> arr[o.s]
     [] OTHER -> arr[o.t]
+
+(* allocator of slot o.s after the operation *)
+AllocAfter(o) ==
+  CASE o.op \in {"ctor_iota_al", "ctor_copy_al", "ctor_move_al"} -> o.v
+    [] o.op \in {"ctor_copy"} -> Select(alloc[o.t])
+    [] o.op = "ctor_move" -> alloc[o.t]
+    [] o.op = "assign_copy" -> IF POCCA THEN alloc[o.t] ELSE alloc[o.s]
+    [] o.op = "assign_move" -> IF POCMA THEN alloc[o.t] ELSE alloc[o.s]
+    [] o.op = "swap" -> IF POCS THEN alloc[o.t] ELSE alloc[o.s]
+    [] o.op = "destroy" -> 0
+    [] o.op \in {"ctor_default", "ctor_ext", "ctor_fill", "ctor_iota", "ctor_view", "decay", "ctor_range", "ctor_ref", "ctor_other", "ctor_il"} -> 0
+    [] OTHER -> alloc[o.s]
+AllocSourceAfter(o) ==
+  CASE o.op = "swap" -> IF POCS THEN alloc[o.s] ELSE alloc[o.t]
+    [] OTHER -> alloc[o.t]
 
 (* documented preconditions beyond liveness *)
 OpPre(o) ==
   /\ o.op \in OpSet
+  \* swapping containers whose allocators are unequal and do not propagate is undefined (as for std containers)
+  /\ (o.op = "swap" => (POCS \/ EqualAl(alloc[o.s], alloc[o.t])))
   \* a nested initializer list cannot express an array with zero elements but non-zero rank > 1 shape
   /\ (o.op \in {"ctor_il", "assign_il"} => (DimD >= 1 /\ DimD <= 3 /\ NE(arr[o.t]) > 0))
   \* assign(first,last) / array(first,last) take the range of sub-arrays: needs D >= 1
@@ -176,18 +221,19 @@ OpPre(o) ==
 AStep(o) ==
   /\ OpPre(o)
   /\ arr' = [q \in Slots |-> IF q = o.s THEN Result(o) ELSE IF q = o.t /\ o.t # 0 THEN SourceAfter(o) ELSE arr[q]]
+  /\ alloc' = [q \in Slots |-> IF q = o.s THEN AllocAfter(o) ELSE IF q = o.t /\ o.t # 0 THEN AllocSourceAfter(o) ELSE alloc[q]]
   /\ hist' = Append(hist, o)
 
-AInit == arr = [s \in Slots |-> Dead] /\ hist = <<>>
+AInit == arr = [s \in Slots |-> Dead] /\ alloc = [s \in Slots |-> 0] /\ hist = <<>>
 ANext == Len(hist) < MaxDepth /\ \E o \in Cands : AStep(o)
 ASpec == AInit /\ [][ANext]_avars
 
-AVW == arr
+AVW == <<arr, alloc>>
 
 -----------------------------------------------------------------------------
 (* Invariants of the requirement itself *)
 ATypeOK ==
-  \A s \in Slots : arr[s].live =>
+  \A s \in Slots : IsSpec(arr[s]) =>
      /\ Len(arr[s].shape) = DimD /\ Len(arr[s].first) = DimD
      /\ Len(arr[s].val) = Prod(arr[s].shape)
 
@@ -196,6 +242,7 @@ Independence ==
   [][\A o \in Cands : AStep(o) => \A q \in Slots \ {o.s, o.t} : arr'[q] = arr[q]]_avars
 
 AExpect == [D |-> DimD, trivial |-> TrivialT, hist |-> hist,
-            arrays |-> [s \in Slots |-> arr[s]]]
+            arrays |-> [s \in Slots |-> arr[s]], alloc |-> [s \in Slots |-> alloc[s]],
+            steals |-> IF hist # <<>> /\ hist[Len(hist)].op \in {"ctor_move", "assign_move", "ctor_move_al"} THEN 1 ELSE 0]
 AEmitC == (~AEmit) \/ hist = <<>> \/ PrintT(ToJson(AExpect))
 =============================================================================
